@@ -85,13 +85,16 @@ def violation(r):
         return ("a storage handle borrows from the world something else than it declares "
                 "(reads()/writes() against the borrow flags seen while the handle is alive): %d handle(s)"
                 % r["probes_inconsistent"])
+    if r["panics"]:
+        return "real dispatch panicked (a borrow was refused: a resource was already borrowed by a system running " \
+               "at the same time), where the model proves no borrow is ever refused"
     if r["nbad"]:
         return "real dispatch: " + BAD_CODES.get(r["bad_code"], "log rejected (code %d)" % r["bad_code"])
     if r["counter_violations"]:
         return "real dispatch: a writer of a resource ran while another system was reading or writing it " \
                "(reader/writer counters)"
-    if r["panics"] or not r["panic_eq"]:
-        return "real dispatch or builder panicked (borrow conflict or missing resource) where the model proves none"
+    if not r["panic_eq"]:
+        return "the builder panicked where the model does not (or the reverse)"
     return None
 
 
@@ -290,7 +293,14 @@ def check_dispatch(pid, tier, seed):
         if violation(rs) is None:
             rs = r
         desc = violation(rs) or desc
+        further, seen = [], {desc}
+        for d2, r2 in violations:
+            if d2 not in seen and len(further) < 3:
+                seen.add(d2)
+                further.append(dict(what=d2, graph=dg.pretty(r2["graph"]), encoded=dg.encode(r2["graph"]),
+                                    verdict={k: r2[k] for k in VKEYS}))
         replay = common.write_replay(pid, dict(property=pid, domain="dispatch", what=desc, **summarize(rs),
+                                               further_violations_not_shrunk=further,
                                                replay_cmd="./sv replay <this file>"))
         print("VIOLATION property=%s replay=%s" % (pid, replay))
         rc = 1
